@@ -223,6 +223,19 @@ MEM_BLOCKS = [
 ]
 
 
+def hash_blocks():
+    """one region hashed twice with a store of either width in between, inside / at the edges of / outside the region, at a constant
+    and at a stack-supplied offset (seed C01-5: the two hashes are unified across an MSTORE8)"""
+    out = []
+    for st in ("MSTORE", "MSTORE8"):
+        for off in ("0", "1f", "20", "3f", "40", "60"):
+            out.append("PUSH 40 PUSH 0 KECCAK256 SWAP1 PUSH %s %s PUSH 40 PUSH 0 KECCAK256 ADD" % (off, st))
+        out.append("PUSH 40 PUSH 0 KECCAK256 SWAP2 SWAP1 %s PUSH 40 PUSH 0 KECCAK256 ADD" % st)
+        out.append("PUSH 20 PUSH 20 KECCAK256 SWAP2 SWAP1 %s PUSH 20 PUSH 20 KECCAK256 ADD" % st)
+    out.append("PUSH 40 PUSH 0 KECCAK256 PUSH 40 PUSH 0 KECCAK256 ADD")
+    return out
+
+
 def generated_mem_blocks(tier):
     """three (four in thorough) memory accesses with constant offsets around word boundaries and one stack-supplied offset"""
     import random
@@ -260,6 +273,7 @@ def generated_mem_blocks(tier):
     out += ["PUSH 1 PUSH 40 MSTORE DUP1 MLOAD PUSH 0 AND PUSH 2 PUSH 40 MSTORE", "PUSH 1 PUSH 40 MSTORE DUP1 MLOAD PUSH 0 AND PUSH 40 MLOAD",
             "PUSH 1 PUSH 40 SSTORE DUP1 SLOAD PUSH 0 AND PUSH 2 PUSH 40 SSTORE", "DUP2 KECCAK256 DUP4 MSTORE DUP3 KECCAK256 SWAP2 MSTORE PUSH 0 AND MLOAD",
             "PUSH 1 DUP3 MSTORE DUP1 MLOAD DUP1 SUB PUSH 2 DUP4 MSTORE", "PUSH 1 DUP3 SSTORE DUP1 SLOAD PUSH 0 MUL DUP3 SLOAD ADD"]
+    out += hash_blocks()
     # MSIZE observes every earlier memory access (finding F35)
     out += ["PUSH 80 MLOAD MSIZE", "MSIZE PUSH 80 MLOAD MSIZE", "PUSH 80 MLOAD POP MSIZE", "MSIZE DUP2 MLOAD", "PUSH 0 PUSH 0 MSTORE MSIZE",
             "MSIZE PUSH 0 PUSH 0 MSTORE", "MSIZE SWAP1 PUSH 200 MSTORE8 MSIZE"]
